@@ -19,6 +19,12 @@
     (F9, F10, F11: predicates over the pattern, in Wildcard.tla) are counted, not judged; their directed cases are
     evaluated and reported as KNOWN-FINDING while they reproduce.  Any other disagreement is a VIOLATION.
  3. a copy of a few recorded lines with one field corrupted each must be rejected by LineOK (the binding can fail).
+ 4. SegmentedStringMatcher (segment-by-segment matching, regex/SegmentedStringMatcher.h): oracle SegMatch3 in Wildcard.tla built from Match3 per
+    segment (token counts equal, or subject not shorter with prefixMatchOkay; leading ~ negates; soft / hard separators as StringTokenizer.h
+    documents; Either for leading / trailing separators, the empty subject under a hard separator, empty patterns, segments beginning with ~ or `);
+    laws L_SegOne / L_SegCount / L_SegStar / L_SegCompose / L_SegPrefix / L_SegNeg; the harness records patterns of 1..3 clauses x both separator
+    kinds x subjects of 0..4 tokens (and variants with empty segments, leading / trailing separators) for both prefix modes plus IsPatternUnique,
+    the lines ride in the same shard files and are validated by the same invariant (SegLineOK).
 """
 import concurrent.futures as cf, json, os, random, shutil
 import vlib
@@ -175,7 +181,7 @@ def run(v, tier, seed):
 
     # ---------------------------------------------------------------- run
     if tier == "quick":
-        plans = [("q", 3, 4, 50000, 2000, 8, 3, 1)]
+        plans = [("q", 3, 4, 40000, 2000, 8, 3, 1)]
         law_args = (3, 2, 2, 3); guards = GUARDS[:3] + GUARDS[-1:]
     else:
         plans = [("t4", 4, 0, 0, 0, 0, 4, 1), ("t5", 0, 5, int(os.environ.get("C15_SAMPLE5", "1200000")), 40000, 10, 3, 0)]
@@ -276,5 +282,7 @@ def run(v, tier, seed):
                    "IsPatternListOfUniqueValues on a single plain item (comment says 'one or more', the code answers false, IsPatternUnique covers the case) is Either",
                    "RemoveEscapeChars is judged where the two readings of its comment (drop escaping backslashes / drop backslashes not preceded by a backslash) agree",
                    "EscapeRegexTokens is judged semantically (output = input with backslashes inserted, and plain text as a pattern), not byte-for-byte against a fixed list of special characters",
+                   "SegmentedStringMatcher: Either (documentation silent) for a leading or trailing separator in pattern or subject, the empty subject under a hard separator, patterns without a segment, "
+                   "segments that begin with ~ or a backtick or are not judged simple patterns; IsPatternUnique is judged on token sequences (a//b and a/b are the same sequence of segments under a soft separator)",
                    "known findings F9, F10, F11 (known_findings.json): inputs inside their predicates are counted, not judged"]
     return "model_checking", cov, assumptions + notes
